@@ -166,8 +166,12 @@ pub mod non_blocking {
                         .danger_accept_invalid_certs(true);
                 }
                 for data in &self.0.ca_certs {
-                    let cert =
-                        reqwest::Certificate::from_pem(data).or_else(|_| reqwest::Certificate::from_der(data))?;
+                    // the rustls backend accepts any bytes as PEM, so look at the data to choose the decoder
+                    let cert = if data.windows(11).any(|w| w == b"-----BEGIN ") {
+                        reqwest::Certificate::from_pem(data)
+                    } else {
+                        reqwest::Certificate::from_der(data)
+                    }?;
                     builder = builder.add_root_certificate(cert);
                 }
             }
